@@ -134,6 +134,7 @@ struct OsslConn::Impl {
     std::string trace;
     int n_ch = 0;
     bool hrr = false;
+    int sh_key_share = -1; bool sh_psk = false; int ch_psk_modes = 0;
     OsslSessionPtr sess;
     int n_tickets = 0;
     void set_err(const char *what, int sslerr) {
@@ -156,6 +157,35 @@ static void info_cb(const SSL *ssl, int where, int ret) {
 static const unsigned char HRR_RANDOM[32] = { 0xCF, 0x21, 0xAD, 0x74, 0xE5, 0x9A, 0x61, 0x11, 0xBE, 0x1D, 0x8C, 0x02, 0x1E, 0x65, 0xB8, 0x91,
                                               0xC2, 0xA2, 0x11, 0x16, 0x7A, 0xBB, 0x8C, 0x5E, 0x07, 0x9E, 0x09, 0xE2, 0xC8, 0xA8, 0x33, 0x9C };
 
+// Extension block of a TLS ClientHello / ServerHello handshake message (4-byte header included); returns false when malformed.
+static bool hello_extensions(const unsigned char *b, size_t len, bool client, const unsigned char **ext, size_t *ext_len) {
+    size_t o = 4 + 2 + 32;
+    if (len < o + 1) return false;
+    o += 1 + b[o];                                            // legacy_session_id(_echo)
+    if (client) {
+        if (len < o + 2) return false;
+        o += 2 + ((size_t) b[o] << 8 | b[o + 1]);            // cipher_suites
+        if (len < o + 1) return false;
+        o += 1 + b[o];                                        // legacy_compression_methods
+    } else o += 3;                                            // cipher_suite, legacy_compression_method
+    if (len == o) { *ext = b + o; *ext_len = 0; return true; }
+    if (len < o + 2) return false;
+    size_t n = (size_t) b[o] << 8 | b[o + 1];
+    if (len < o + 2 + n) return false;
+    *ext = b + o + 2; *ext_len = n;
+    return true;
+}
+static bool find_extension(const unsigned char *e, size_t n, unsigned type, const unsigned char **data, size_t *dlen) {
+    size_t o = 0;
+    while (o + 4 <= n) {
+        unsigned t = (unsigned) e[o] << 8 | e[o + 1]; size_t l = (size_t) e[o + 2] << 8 | e[o + 3];
+        if (o + 4 + l > n) return false;
+        if (t == type) { *data = e + o + 4; *dlen = l; return true; }
+        o += 4 + l;
+    }
+    return false;
+}
+
 static void msg_cb(int write_p, int, int content_type, const void *buf, size_t len, SSL *ssl, void *) {
     OsslConn::Impl *c = conn_of(ssl);
     if (!c || content_type != SSL3_RT_HANDSHAKE || len < 1) return;
@@ -165,7 +195,20 @@ static void msg_cb(int write_p, int, int content_type, const void *buf, size_t l
     c->trace += std::to_string((int) b[0]);
     if (b[0] == SSL3_MT_CLIENT_HELLO) c->n_ch++;
     size_t hdr = c->dtls ? 12 : 4;
-    if (b[0] == SSL3_MT_SERVER_HELLO && len >= hdr + 2 + 32 && memcmp(b + hdr + 2, HRR_RANDOM, 32) == 0) c->hrr = true;
+    bool is_hrr = b[0] == SSL3_MT_SERVER_HELLO && len >= hdr + 2 + 32 && memcmp(b + hdr + 2, HRR_RANDOM, 32) == 0;
+    if (is_hrr) c->hrr = true;
+    if (!c->dtls && (b[0] == SSL3_MT_CLIENT_HELLO || (b[0] == SSL3_MT_SERVER_HELLO && !is_hrr))) {
+        const unsigned char *e = nullptr, *d = nullptr; size_t en = 0, dn = 0;
+        bool ok = hello_extensions(b, len, b[0] == SSL3_MT_CLIENT_HELLO, &e, &en);
+        if (b[0] == SSL3_MT_SERVER_HELLO) {
+            c->sh_key_share = !ok ? -1 : find_extension(e, en, TLSEXT_TYPE_key_share, &d, &dn) ? 1 : 0;
+            c->sh_psk = ok && find_extension(e, en, TLSEXT_TYPE_psk, &d, &dn);
+        } else {
+            c->ch_psk_modes = 0;
+            if (ok && find_extension(e, en, TLSEXT_TYPE_psk_kex_modes, &d, &dn) && dn >= 1 && (size_t) d[0] + 1 <= dn)
+                for (size_t i = 0; i < d[0]; i++) { if (d[1 + i] == 0 /* psk_ke */) c->ch_psk_modes |= 1; else if (d[1 + i] == 1 /* psk_dhe_ke */) c->ch_psk_modes |= 2; }
+        }
+    }
 }
 
 static int new_session_cb(SSL *ssl, SSL_SESSION *s) {
@@ -244,6 +287,7 @@ std::unique_ptr<OsslCtx> OsslCtx::create(const OsslCtxConfig &cfg, std::string *
     if (!cfg.etm) on |= SSL_OP_NO_ENCRYPT_THEN_MAC;
     if (cfg.server_pref) on |= SSL_OP_CIPHER_SERVER_PREFERENCE;
     if (cfg.legacy_server_connect) on |= SSL_OP_LEGACY_SERVER_CONNECT;
+    if (cfg.allow_no_dhe_kex) on |= SSL_OP_ALLOW_NO_DHE_KEX;
     if (cfg.dtls) { on |= SSL_OP_NO_QUERY_MTU; if (cfg.dtls_cookie) on |= SSL_OP_COOKIE_EXCHANGE; }
     SSL_CTX_set_options(ctx, on);
     if (cfg.num_tickets >= 0) SSL_CTX_set_num_tickets(ctx, (size_t) cfg.num_tickets);
@@ -337,6 +381,13 @@ OsslConn::OsslConn(OsslCtx &ctx, OsslSessionPtr resume) : p(new Impl) {
 }
 OsslConn::~OsslConn() { if (p) { if (p->ssl) { SSL_set_app_data(p->ssl, NULL); SSL_free(p->ssl); } delete p; } }
 
+bool OsslConn::set_groups(const std::string &list) {
+    if (!p->ssl) return false;
+    ERR_clear_error();
+    bool ok = SSL_set1_groups_list(p->ssl, list.c_str()) == 1;
+    ERR_clear_error();
+    return ok;
+}
 void OsslConn::feed(const uint8_t *d, size_t n) { if (p->ssl && n && !p->dtls) BIO_write(p->rbio, d, (int) n); }
 void OsslConn::feed_dgram(const Bytes &d) { if (p->ssl && p->dtls) p->in_q.push_back(d); }
 Bytes OsslConn::take_out() {
@@ -476,6 +527,9 @@ bool OsslConn::ems_negotiated() const { return p->ssl && SSL_get_extms_support(p
 const std::string &OsslConn::hs_trace() const { return p->trace; }
 int OsslConn::client_hellos() const { return p->n_ch; }
 bool OsslConn::saw_hello_retry() const { return p->hrr; }
+int OsslConn::server_hello_key_share() const { return p->sh_key_share; }
+bool OsslConn::server_hello_pre_shared_key() const { return p->sh_psk; }
+int OsslConn::client_hello_psk_modes() const { return p->ch_psk_modes; }
 OsslSessionPtr OsslConn::session() const {
     if (p->sess) return p->sess;
     if (!p->ssl || p->cx->cfg.server) return nullptr;
